@@ -12,6 +12,14 @@ of the historical streams and every replay file naming one of their indices is u
   V1_BASE     the junk stream on the v1 engine (Meta.v1 = True) over the composite fragment (no Union / Literal, which have
               their own recorded shapes) with user-defined subclasses of date / datetime next to the plain types and
               mix-in Enums; exact-type conformance.
+  TD_BASE     TypedDict declarations: one class body (total / total=False, Required / NotRequired markers) and inheritance from
+              one or two bases of the same or the *other* totality, up to three levels; a key is required according to the body
+              that declares it (model.td_fields, the documented rule) × position × documents (complete, required keys only,
+              one / every required key omitted - inherited or own -, empty, extra key, junk value, no mapping) × both engines.
+  -O          a sample of the cases of *every* stream (historical junk / near-miss streams included; all of the v1 and TypedDict
+              cases, about a third of the others) is loaded again in a child interpreter started with `-O` (assert statements
+              compiled away, __debug__ False): harness/optchild.py rebuilds the classes from the class model and applies the
+              same oracle there. The property is stated for every input, not for an interpreter setting.
 The oracle is c05.conforms (exact types: `type(x) is T` for every leaf, subclass or not) + the input-mutation monitor.
 """
 from __future__ import annotations
@@ -19,6 +27,7 @@ from __future__ import annotations
 import copy
 import datetime as dt
 import json
+import os
 import random
 
 from harness import gen, model
@@ -28,14 +37,38 @@ from harness.props.c01 import load_outcome
 RULE = ('Enum families (plain, str / int mix-in, IntEnum, StrEnum) × 10 positions × falsy / near-member junk; the junk stream over an extended '
         'grammar (mix-in Enums, user-defined subclasses of date / datetime next to the plain types); Annotated[.., Pattern(fmt)] positions with '
         'Pattern objects shared between positions of different types; the junk stream on the v1 engine (composite fragment, subclasses, '
-        'mix-in Enums); conforms() is exact-type for every leaf.')
+        'mix-in Enums); TypedDict declarations (one body or inherited from bases of the same / the other totality, Required / NotRequired '
+        'markers; requiredness by the declaring body) × positions × documents omitting required / optional keys × both engines; a sample of '
+        'the cases of every stream loaded again under `python -O` with the same oracle applied in the child; conforms() is exact-type for '
+        'every leaf.')
 
 ENUM_BASE = 2_000_000
 EXT_BASE = 3_000_000
 PAT_BASE = 4_000_000
 V1_BASE = 5_000_000
+TD_BASE = 6_000_000
 
 RUN_TAG = ''
+
+# cases to be loaded again under `python -O`: [index, kind, case, ty, document]
+OPT_CASES = []
+OPT_RATE = {'junk:v1': 1.0, 'typeddict': 1.0}
+OPT_RATE_DEFAULT = 0.35
+
+
+def collect(ctx, kind, case, ty, doc):
+    """remember an evaluated case for the `-O` stage; the decision is a function of (seed, case index), so a replay of the
+    case takes the same one"""
+    rate = OPT_RATE.get(kind, OPT_RATE_DEFAULT)
+    if rate < 1.0 and random.Random(f'{ctx.prop_id}:{ctx.seed}:opt:{ctx.current}').random() >= rate:
+        return
+    try:
+        text = json.dumps(doc)          # NaN / Infinity travel as the json module writes them
+        json.dumps(ty)
+    except (TypeError, ValueError):
+        ctx.count('optimized:not_serialisable')
+        return
+    OPT_CASES.append([ctx.current, kind, case, ty, json.loads(text)])
 
 
 def sub_rng(ctx, tag):
@@ -61,6 +94,7 @@ def judge(ctx, c05, kind, case, ty, built, bad, engine, reqs, pend, model_ok=Tru
     """load `bad` through the root class of `built`; conforming instance or an exception; input untouched"""
     from dataclass_wizard import fromdict
     before = copy.deepcopy(bad)
+    collect(ctx, kind, case, ty, before)
     out = load_outcome(lambda: fromdict(built.root, bad))
     src = dict(src=built.source)
     if not c05.strict_eq(bad, before):
@@ -270,6 +304,165 @@ def run_v1(ctx, c05, reqs, pend):
     random_stream(ctx, c05, rng, o, n, V1_BASE, 'v1', 'junk:v1', reqs, pend, depths=(0, 0, 1, 1, 2))
 
 
+# --------------------------------------------------------------------------- TypedDict declarations
+
+TD_KEYS = ['id', 'kind', 'text', 'tags', 'size', 'when', 'note', 'flag', 'ratio', 'label']
+TD_LEAVES = [(lambda: T('int'), [1, 0, '7']), (lambda: T('str'), ['hi', '']), (lambda: T('float'), [2.5, 1]), (lambda: T('bool'), [True, False]),
+             (lambda: T('list', T('str')), [['a'], []]), (lambda: T('optional', T('int')), [None, 3]), (lambda: T('date'), ['2021-03-04']),
+             (lambda: T('dict', T('str'), T('int')), [{'a': 1}, {}])]
+
+
+def td_body(rng, names, total, bases=()):
+    own = []
+    for n in names:
+        mk_ty, _vals = rng.choice(TD_LEAVES)
+        own.append([n, mk_ty(), rng.choice([None, None, None, 'req', 'notreq'])])
+    t = T('typeddict', name=model.fresh('TD'), own=own, total=total, bases=list(bases))
+    t['fields'] = model.td_fields(t)
+    return t
+
+
+def td_decl(rng):
+    """(shape name, TypedDict node in declaration form)"""
+    names = rng.sample(TD_KEYS, len(TD_KEYS))
+    take = lambda lo, hi: [names.pop() for _ in range(rng.randint(lo, hi))]
+    shape = rng.choice(['single', 'child-other', 'child-other', 'child-other', 'child-same', 'two-bases', 'grandchild'])
+    total = rng.random() < 0.5
+    if shape == 'single':
+        return shape, td_body(rng, take(1, 4), total)
+    if shape in ('child-other', 'child-same'):
+        base = td_body(rng, take(1, 3), total)
+        return shape, td_body(rng, take(0, 2), (not total) if shape == 'child-other' else total, [base])
+    if shape == 'two-bases':
+        b1, b2 = td_body(rng, take(1, 2), total), td_body(rng, take(1, 2), not total)
+        return shape, td_body(rng, take(0, 2), rng.random() < 0.5, [b1, b2])
+    g = td_body(rng, take(1, 2), total)
+    m = td_body(rng, take(1, 2), not total, [g])
+    return shape, td_body(rng, take(0, 2), rng.random() < 0.5, [m])
+
+
+def td_value(rng, ft):
+    for mk_ty, vals in TD_LEAVES:
+        if mk_ty() == {k_: v for k_, v in ft.items() if k_ != 'falsy'}:
+            return copy.deepcopy(rng.choice(vals))
+    raise ValueError(ft)
+
+
+TD_POS = [('field', lambda u: u, lambda v: v), ('list', lambda u: T('list', u), lambda v: [v]),
+          ('list2', lambda u: T('list', u), lambda v: [v, copy.deepcopy(v)]), ('dictval', lambda u: T('dict', T('str'), u), lambda v: {'k': v}),
+          ('optional', lambda u: T('optional', u), lambda v: v), ('tuple', lambda u: T('tuple', T('int'), u), lambda v: [1, v])]
+
+
+def run_typeddict(ctx, c05, reqs, pend):
+    rng = sub_rng(ctx, 'typeddict')
+    n = ctx.quick(400, 5000)
+    for j in range(n):
+        i = TD_BASE + j
+        if ctx.done(i):
+            break
+        shape, td = td_decl(rng)
+        pos, wrap, mk = rng.choice(TD_POS)
+        engine = rng.choice(['default', 'v1'])
+        nested = rng.random() < 0.25
+        fields = td['fields']
+        required = [f for f in fields if f[2]]
+        optional = [f for f in fields if not f[2]]
+        full = {f[0]: td_value(rng, f[1]) for f in fields}
+        mode = rng.choice(['complete', 'required-only', 'omit-required', 'omit-required', 'omit-required', 'optional-only', 'empty',
+                           'extra-key', 'junk-value', 'no-mapping', 'some-optional'])
+        if mode in ('omit-required', 'optional-only') and not required:
+            mode = 'some-optional'
+        if mode == 'complete':
+            val = full
+        elif mode == 'required-only':
+            val = {k_: v for k_, v in full.items() if any(k_ == f[0] for f in required)}
+        elif mode == 'omit-required':
+            gone = rng.choice(required)[0]
+            val = {k_: v for k_, v in full.items() if k_ != gone and (any(k_ == f[0] for f in required) or rng.random() < 0.6)}
+        elif mode == 'optional-only':
+            val = {k_: v for k_, v in full.items() if any(k_ == f[0] for f in optional)}
+        elif mode == 'empty':
+            val = {}
+        elif mode == 'extra-key':
+            val = dict(full, **{rng.choice(['extra', 'ID', 'Kind', 'total']): rng.choice([1, 'x', None])})
+        elif mode == 'junk-value':
+            val = dict(full)
+            val[rng.choice(fields)[0]] = copy.deepcopy(gen.junk(rng))
+        elif mode == 'no-mapping':
+            val = copy.deepcopy(rng.choice([None, [], 'id', 5, [['id', 1]], sorted(full)]))
+        else:
+            val = {k_: v for k_, v in full.items() if any(k_ == f[0] for f in required) or rng.random() < 0.5}
+        ft = wrap(td)
+        inner_doc = mk(val)
+        if nested:
+            ft = {'k': 'cls', 'info': {'name': model.fresh('N'), 'fields': [{'name': 'inner_val'}], 'wizard': False, 'meta': None},
+                  'ftys': [['inner_val', ft]]}
+            inner_doc = {'inner_val': inner_doc}
+        ty = one_field(ft, meta={'v1': True} if engine == 'v1' else None, wizard=(engine == 'v1') or rng.random() < 0.5)
+        if not ctx.begin_case(i):
+            continue
+        built = model.Built(ty)
+        try:
+            # the reference's key classification against CPython's own bookkeeping of the same declaration (harness self-check)
+            TD = built.get(td['name'])
+            if (set(TD.__required_keys__), set(TD.__optional_keys__)) != ({f[0] for f in required}, {f[0] for f in optional}):
+                ctx.notes.setdefault('td_reference_mismatch', []).append([td['name'], built.source[-600:]])
+                ctx.fail('typeddict:reference', {'ty': ty}, 'model.td_fields disagrees with __required_keys__ / __optional_keys__ (harness)',
+                         detail=dict(src=built.source))
+                continue
+            bad = {'fld': inner_doc}
+            case = {'engine': engine, 'ty': ty, 'doc': repr(bad)[:600], 'shape': shape, 'position': pos, 'mode': mode}
+            ctx.seen('typeddict:' + shape, case)
+            jv = json.dumps(bad, default=repr)
+            judge(ctx, c05, 'typeddict', case, ty, built, bad, engine, reqs, pend, model_ok='NaN' not in jv and 'Infinity' not in jv)
+        finally:
+            built.close()
+
+
+# --------------------------------------------------------------------------- the same cases under `python -O`
+
+def run_optimized(ctx, c05, flags=('-O',), min_optimize=1):
+    """load the collected cases again in a child interpreter started with `flags`; same oracle, applied in the child"""
+    import subprocess
+    from harness import common as C
+    cases, OPT_CASES[:] = list(OPT_CASES), []
+    if not cases:
+        return
+    payload = json.dumps({'min_optimize': min_optimize, 'cases': [{'i': i, 'ty': ty, 'doc': doc} for i, _k, _c, ty, doc in cases]})
+    env = dict(os.environ, VERIF_REPO=str(C.REPO))
+    env.pop('PYTHONOPTIMIZE', None)
+    p = subprocess.run(['/venv/bin/python', *flags, '-m', 'harness.optchild'], input=payload.encode(), capture_output=True,
+                       cwd=str(C.VERIF), env=env, timeout=900)
+    lines = [json.loads(ln) for ln in p.stdout.decode('utf-8', 'replace').splitlines() if ln.startswith('{')]
+    if p.returncode != 0 or not lines or 'done' not in lines[-1] or lines[-1].get('optimize', 0) < min_optimize:
+        raise RuntimeError(f'harness.optchild ({" ".join(flags)}) exited {p.returncode}: {p.stderr.decode("utf-8", "replace")[-1500:]}')
+    by_index = {}
+    for r in lines[:-1]:
+        by_index.setdefault(r['i'], []).append(r)
+    for i, kind, case, ty, doc in cases:
+        rs = by_index.get(i)
+        if not rs:
+            raise RuntimeError(f'harness.optchild: no result for case {i}')
+        r = rs.pop(0)
+        ctx.current = i
+        ocase = dict(case, interpreter='python ' + ' '.join(flags))
+        ctx.seen('optimized:' + kind, ocase)
+        if 'build_error' in r:
+            ctx.count('optimized:build_error')
+            ctx.notes.setdefault('optimized_build_errors', []).append(r['build_error'])
+            continue
+        if 'mutated' in r:
+            ctx.fail('junk:input-mutated', ocase, f'under python {" ".join(flags)}: fromdict changed its input: before {r["mutated"][0]}, '
+                     f'after {r["mutated"][1]}'[:1500])
+        if r.get('returned'):
+            ctx.count('optimized:returned')
+            if not r['conforms']:
+                ctx.fail('junk:nonconforming', ocase, f'under python {" ".join(flags)}: fromdict({doc!r}) returned a non-conforming object '
+                         f'{r["repr"]}'[:1500], key=r.get('key'))
+        else:
+            ctx.count('optimized:raised')
+
+
 def run(ctx, c05):
     from harness.props import c01, c02
     reqs, pend = [], []
@@ -277,6 +470,8 @@ def run(ctx, c05):
     run_ext(ctx, c05, reqs, pend)
     run_patterned(ctx, c05, reqs, pend)
     run_v1(ctx, c05, reqs, pend)
+    run_typeddict(ctx, c05, reqs, pend)
+    run_optimized(ctx, c05)
     if ctx.model_available:
         outs = ctx.driver.run(reqs)
         for (kind, case, out, built, engine), o_ in zip(pend, outs):
